@@ -174,10 +174,13 @@ class Runtime:
 
         try:
             handler = self.handlers[type(request)]
-        except KeyError as e:
-            raise TypeError(
-                f"No handler for request type {type(request).__qualname__}"
-            ) from e
+        except KeyError:
+            try:
+                handler = _DEFAULT_HANDLERS[type(request)]
+            except KeyError as e:
+                raise TypeError(
+                    f"No handler for request type {type(request).__qualname__}"
+                ) from e
 
         return handler(request)
 
